@@ -93,10 +93,29 @@ class CHECK(Check):
                 return False
         return True
 
+    @staticmethod
+    def rich(v, fresh):
+        """the Python object standing for abstract value v. Members and filters get EQUAL BUT DISTINCT objects (ints outside the
+        small-int cache, floats, strings built at run time, an int filter against a float attribute): matching is by value"""
+        if v is None:
+            return None
+        base = {1: 1001, 2: 1002, 7: 120.5, 8: 121.5, 9: "Nine"}.get(v, v)
+        if not fresh:
+            return base
+        if isinstance(base, str):
+            return "".join(list(base))
+        if isinstance(base, float):
+            return float(repr(base))
+        return float(base) if v == 2 else int(str(base))
+
     def impl(self, case):
         F = families.get(case["fam"])
         T = types_of(case["fam"])
-        elems = [T[c](data=list(d)) for c, d in case["elems"]]
+        import hashlib, json
+        rich = int(hashlib.sha1(json.dumps(case, sort_keys=True).encode()).hexdigest(), 16) % 2 == 1
+        mv = (lambda v: self.rich(v, False)) if rich else (lambda v: v)
+        fv = (lambda v: self.rich(v, True)) if rich else (lambda v: v)
+        elems = [T[c](data=[mv(x) for x in d]) for c, d in case["elems"]]
         ids = {id(e): i for i, e in enumerate(elems)}
         cap = len(elems) + 3
         c = F["Data"](elems[0])
@@ -110,7 +129,7 @@ class CHECK(Check):
                 elif op[0] == 5:
                     out.append([ids.get(id(e), -9) for e in c.of_type(T[op[1]])])
                 elif op[0] == 6:
-                    kw = {KEYS[k]: v for k, v in op[2]}
+                    kw = {KEYS[k]: fv(v) for k, v in op[2]}
                     r = getattr(c, F["get"])(T[op[1]], **kw)
                     after = [ids.get(id(e), -9) for e in itertools.islice(iter(c), cap)]
                     if r is None:
@@ -120,7 +139,7 @@ class CHECK(Check):
                     else:
                         out.append({"shape": [1, ids.get(id(r), -9)], "after": after})
                 else:
-                    kw = {KEYS[k]: v for k, v in op[2]}
+                    kw = {KEYS[k]: fv(v) for k, v in op[2]}
                     getattr(c, F["remove"])(T[op[1]], **kw)
                     out.append(observe(c, ids, cap))
             except AttributeError:
